@@ -87,6 +87,22 @@ Theorem C04_grant_needed_iff_caller_not_signer :
 Proof. exact grant_needed_iff_and_parties. Qed.
 Print Assumptions C04_grant_needed_iff_caller_not_signer.
 
+(** The second sentence of the property over EVERY method that spends the named account's funds or stake — the four
+    staking spends, the ICS-20 transfer and createValidator (whose self-delegation no authorization covers): a call
+    by a caller that is not the signer is accepted only if a grant signer -> caller is consulted; createValidator
+    in particular is accepted only when the signer itself calls (before c43fab9 a contract called by the signer
+    could stake the signer's coins into a new validator with no grant at all). *)
+Theorem C04_contract_spends_signer_funds_only_with_grant :
+  forall m o c named, spends_named m = true -> accepts_identity m o c named = true -> c <> o ->
+    needs_grant m o c named = true /\ grant_parties m o c named = (o, c).
+Proof. exact contract_spends_signer_funds_only_with_grant. Qed.
+Print Assumptions C04_contract_spends_signer_funds_only_with_grant.
+
+Theorem C04_create_validator_only_by_signer :
+  forall o c named, accepts_identity SCreateValidator o c named = true -> c = o /\ named = o.
+Proof. exact create_validator_only_by_signer. Qed.
+Print Assumptions C04_create_validator_only_by_signer.
+
 (** A staking spend (delegate, undelegate, redelegate, cancelUnbondingDelegation)
     by a caller that is not the signer succeeds only with a live
     StakeAuthorization signer -> caller for the message type that admits the
